@@ -115,7 +115,7 @@ func checkC03(c *Ctx) {
 		if f == nil || PkgPathOf(f) != ModulePath+"/"+pkgXform {
 			return false
 		}
-		n := Origin(f).Name()
+		n := NameOf(Origin(f))
 		return n == "EffectsApply" || n == "EffectApply"
 	}
 	isRawEffects := func(v ssa.Value) bool {
@@ -127,7 +127,7 @@ func checkC03(c *Ctx) {
 			return call.Call.Method.Name() == "Effects"
 		}
 		f := call.Call.StaticCallee()
-		return f != nil && f.Name() == "Effects"
+		return f != nil && NameOf(f) == "Effects"
 	}
 	applySites := DeepInstrs(step, enter, func(in ssa.Instruction) bool {
 		ci, ok := in.(ssa.CallInstruction)
@@ -159,11 +159,11 @@ func checkC03(c *Ctx) {
 			return false
 		}
 		f := call.Call.StaticCallee()
-		return f != nil && f.Name() == "Address" && strings.HasPrefix(PkgPathOf(f), ModulePath+"/"+pkgDeps)
+		return f != nil && NameOf(f) == "Address" && strings.HasPrefix(PkgPathOf(f), ModulePath+"/"+pkgDeps)
 	}
 	isMustIP := func(v ssa.Value) bool {
 		call, ok := v.(*ssa.Call)
-		return ok && call.Call.StaticCallee() != nil && call.Call.StaticCallee().Name() == "MustIP"
+		return ok && call.Call.StaticCallee() != nil && NameOf(call.Call.StaticCallee()) == "MustIP"
 	}
 	for i, s := range evalSites {
 		call := s.Instr.(*ssa.Call)
@@ -174,7 +174,7 @@ func checkC03(c *Ctx) {
 				continue
 			}
 			for _, cs := range DeepCalls(f, enter) {
-				if g := Callee(cs.Call().Common()); g != nil && g.Name() == "eval" && PkgPathOf(g) == ModulePath+"/"+pkgEmul {
+				if g := Callee(cs.Call().Common()); g != nil && NameOf(g) == "eval" && PkgPathOf(g) == ModulePath+"/"+pkgEmul {
 					evalOK = true
 				}
 			}
@@ -300,7 +300,7 @@ func checkC03(c *Ctx) {
 			if call.Call.IsInvoke() {
 				name, recv = call.Call.Method.Name(), call.Call.Value
 			} else if f := call.Call.StaticCallee(); f != nil && len(call.Call.Args) > 0 {
-				name, recv = f.Name(), call.Call.Args[0]
+				name, recv = NameOf(f), call.Call.Args[0]
 			}
 			return name == "End" && recv != nil && (DependsOnVia(s.Chain, recv, enter, isAddressLookup, nil) || DependsOnVia(nil, recv, enter, isAddressLookup, nil))
 		}, nil)
@@ -385,7 +385,7 @@ func checkC03(c *Ctx) {
 				continue
 			}
 			f := call.Call.StaticCallee()
-			if f == nil || Origin(f).Name() != "ReplaceAll" {
+			if f == nil || NameOf(Origin(f)) != "ReplaceAll" {
 				continue
 			}
 			rf, bound := ResolveFunc(call.Call.Args[1])
@@ -404,17 +404,55 @@ func checkC03(c *Ctx) {
 					return matches(v, Method(name, func(x ssa.Value, _ *Bind) bool { return IsParam(x, cur) || Unwrap(x) == ssa.Value(cur) }))
 				}
 			}
-			var rd, rp *ssa.Call
+			var rd *ssa.Call
 			for _, cs := range Calls(rf) {
 				g := Callee(cs.Common())
 				if g == nil {
 					continue
 				}
-				switch g.Name() {
+				switch NameOf(g) {
 				case "regValue", "memValue":
 					rd, _ = cs.Instr.(*ssa.Call)
-				case "inputReg", "memRead":
-					rp, _ = cs.Instr.(*ssa.Call)
+				}
+			}
+			// the report, identified by its effect (wherever it is written: in the
+			// reader itself, in a Step method, in a plain helper): an update of
+			// Step.RegLoads, or a store of a grown Step.MemLoads
+			var rp ssa.Instruction // the instruction of rf that makes the report
+			var repKey, repVal func(func(ssa.Value) bool) bool
+			var repAddr func(func(ssa.Value) bool) bool
+			for _, rs := range DeepInstrs(rf, func(g *ssa.Function) bool { return enter(g) && (rd == nil || g != rd.Call.StaticCallee()) }, func(in ssa.Instruction) bool {
+				switch x := in.(type) {
+				case *ssa.MapUpdate:
+					return LoadOfField(x.Map, "RegLoads", func(ssa.Value) bool { return true })
+				case *ssa.Store:
+					fa, isFA := x.Addr.(*ssa.FieldAddr)
+					return isFA && FieldOf(fa) != nil && FieldOf(fa).Name() == "MemLoads"
+				}
+				return false
+			}) {
+				rs := rs
+				if len(rs.Chain) > 0 {
+					rp = rs.Chain[0]
+				} else {
+					rp = rs.Instr
+				}
+				// reached by copying only: arithmetic on the way (addr+1) is not the
+				// value that was read
+				noArith := func(v ssa.Value) bool {
+					_, isB := v.(*ssa.BinOp)
+					return isB || (rd != nil && v == ssa.Value(rd))
+				}
+				via := func(v ssa.Value) func(func(ssa.Value) bool) bool {
+					return func(src func(ssa.Value) bool) bool { return DependsOnVia(rs.Chain, v, enter, src, noArith) }
+				}
+				switch x := rs.Instr.(type) {
+				case *ssa.MapUpdate:
+					k := rs.UpRoot(x.Key)
+					repKey = func(src func(ssa.Value) bool) bool { return src(k) || src(Unwrap(k)) }
+					repVal = via(x.Value)
+				case *ssa.Store:
+					repKey, repAddr, repVal = via(x.Val), via(x.Val), via(x.Val)
 				}
 			}
 			why := ""
@@ -422,22 +460,22 @@ func checkC03(c *Ctx) {
 			case rd == nil:
 				why = "the value is not read with regValue/memValue"
 			case rp == nil:
-				why = "the read is not reported with inputReg/memRead"
+				why = "the read is not reported (nothing is filed under Step.RegLoads / Step.MemLoads)"
 			case !DependsOn(rd.Call.Args[1], onCur("Key")):
 				why = "the value is not read under the load's own key"
 			case !DependsOn(rd.Call.Args[len(rd.Call.Args)-1], onCur("Width")):
 				why = "the value is not read at the load's own width"
-			case !SameValue(rp.Call.Args[1], rd.Call.Args[1]):
+			case !repKey(func(v ssa.Value) bool { return SameValue(v, rd.Call.Args[1]) }):
 				why = "the report names a different key than the one read"
-			case !DependsOn(rp.Call.Args[len(rp.Call.Args)-1], func(v ssa.Value) bool { return v == ssa.Value(rd) }):
+			case !repVal(func(v ssa.Value) bool { return v == ssa.Value(rd) }):
 				why = "the reported value is not the value read"
 			}
-			if why == "" && rd.Call.StaticCallee().Name() == "memValue" {
+			if why == "" && NameOf(rd.Call.StaticCallee()) == "memValue" {
 				if !DependsOn(rd.Call.Args[2], func(v ssa.Value) bool {
 					return matches(v, CallTo(pkgXform+".ConstFold", func(x ssa.Value, _ *Bind) bool { return onCur("Addr")(x) }))
 				}) {
 					why = "the address read is not the constant-folded Addr() of the load"
-				} else if !SameValue(rp.Call.Args[2], rd.Call.Args[2]) {
+				} else if repAddr == nil || !repAddr(func(v ssa.Value) bool { return SameValue(v, rd.Call.Args[2]) }) {
 					why = "the reported address is not the address read"
 				}
 			}
@@ -467,7 +505,7 @@ func checkC03(c *Ctx) {
 			return false
 		}
 		f := Callee(ci.Common())
-		return f != nil && f.Name() == "recordOutput"
+		return f != nil && NameOf(f) == "recordOutput"
 	})
 	for i, s := range applySites {
 		ef := s.UpRoot(s.Call().Common().Args[1])
@@ -517,7 +555,7 @@ func checkC03(c *Ctx) {
 		for _, ts := range c.Prog.TypeSwitches(fn, "Effect") {
 			nTS++
 			c.Exhaustive("C03.exh", ts, "Effect")
-			if fn.Name() != "recordOutput" {
+			if NameOf(fn) != "recordOutput" {
 				continue
 			}
 			if e := ts.CaseValue("RegStore"); e != nil {
@@ -586,7 +624,7 @@ func checkC03(c *Ctx) {
 func calleeShort(in ssa.Instruction) string {
 	if ci, ok := in.(ssa.CallInstruction); ok {
 		if f := Callee(ci.Common()); f != nil {
-			return f.Name()
+			return NameOf(f)
 		}
 	}
 	return "call"
